@@ -4,9 +4,14 @@ from .. import common
 
 P_OK = "mov rax, 0x7fffffff\nlea r15, [rax+rsp]\nlea rcx, [2*rbx]\nadd rax, rbx\nret"
 P_OK2 = "vpaddb ymm1, ymm2, ymm3\npush r9\njmp 4\nmov qword [rbx+rcx*2], 5\nnop7"
-P_BAD = "mov rax, rbx\nbogus rax\nret"
-P_LONG = "\n".join(["mov rax, 0x1122334455667788"] * 30)
-P_HUGE = "\n".join(["mov rax, 0x1122334455667788"] * 500)  # does not fit a 4096-byte caller buffer
+# failing programs share their successfully parsed lines with the final programs, and those lines are option-sensitive: whatever
+# a failed call leaves behind (parse caches, flags, modes) then meets the very same text under possibly different options
+# (seeded change C15-parse-memo-survives-failed-call was missed while failing and final programs had no line in common)
+P_BAD = "mov rax, 0x7fffffff\nbogus rax\nret"
+P_BAD2 = "lea r15, [rax+rsp]\nlea rcx, [2*rbx]\nadd rax, [rbx\nret"
+P_LONG = "\n".join(["mov rax, 0x7fffffff", "lea rdx, [rcx+rsp]"] * 15)
+P_HUGE = "\n".join(["mov rax, 0x7fffffff", "lea rdx, [rcx+rsp]", "mov rax, 0x1122334455667788"] * 300)  # does not fit a 4096-byte caller buffer
+P_SIB = "lea r15, [rax+rsp]\nlea rcx, [2*rbx]\nmov rdx, 0x000000007fffffff\nret"
 
 # history alphabet (14 symbols). 'cfg' symbols are replayed on the fresh instance too.
 ALPHA = {
@@ -19,16 +24,19 @@ ALPHA = {
     "asm": (["asm 0 %s" % common.hx(P_OK)], False),
     "asmbad": (["asm 0 %s" % common.hx(P_BAD)], False),
     "cnt8": (["cnt 0 8 %s" % common.hx(P_OK2)], False),
-    "cntbad": (["cnt 0 1 %s" % common.hx(P_BAD)], False),
+    "cntbad": (["cnt 0 1 %s" % common.hx(P_BAD2)], False),
 }
 EXTRA = {  # used by the random part only
     "asmhuge": (["asm 0 %s" % common.hx(P_HUGE)], False),
+    "asmbad2": (["asm 0 %s" % common.hx(P_BAD2)], False),
+    "cntbad8": (["cnt 0 8 %s" % common.hx(P_BAD)], False),
+    "otherbad": (["new 3 ext 4096 H 0xcc", "opt 3 all 0", "asm 3 %s" % common.hx(P_BAD), "del 3"], False),
     "cnt0": (["cnt 0 0 %s" % common.hx(P_OK)], False),
     "debug1": (["debug 0 1"], True), "debug0": (["debug 0 0"], True),
     "chunk16": (["chunk 0 16"], True), "swap0": (["opt 0 swap 0"], True), "all1": (["opt 0 all 1"], True), "odd": (["opt 0 all 7"], True),
     "setoff0": (["setoff 0 0"], False), "asm2": (["asm 0 %s" % common.hx(P_OK2)], False),
 }
-FINALS = [("asm", P_OK), ("asm", P_OK2), ("cnt 8", P_OK2), ("asm", P_LONG), ("asm", P_BAD), ("cnt 3", P_OK)]
+FINALS = [("asm", P_OK), ("asm", P_OK2), ("cnt 8", P_OK2), ("asm", P_LONG), ("asm", P_BAD), ("cnt 3", P_OK), ("asm", P_SIB)]
 START = 11
 
 
